@@ -25,7 +25,7 @@ COMPONENTS = {"real": ["ECAgent.Core._MetaAgent (per-class _components / _tag, a
 PROBES = ["explicit_tag_zero_with_nonzero_default", "tag_set_on_Agent_itself", "class_component_on_environment_class",
           "reject_duplicate_attach", "reject_detach_absent", "instance_component_attached", "subclass_instantiated_after_tag",
           "parent_instantiated_after_child_tag", "child_instantiated_after_parent_tag", "depth_3_chain", "sibling_isolation_checked", "class_created_mid_history", "class_cloned_from_namespace",
-          "shared_namespace_dict", "model_lifecycle_op", "many_classes"]
+          "shared_namespace_dict", "model_lifecycle_op", "many_classes", "class_level_op_inside_creation_hook"]
 TECHNIQUE = "deterministic simulation: seeded class-level attach/detach/tag histories over generated hierarchies, pristine forked process per history, per-class reference"
 LEVEL_TEXT = ("Seeded search over class hierarchies and class-level histories; after every operation, for every class in the "
               "hierarchy including Agent and Environment, class components, length, membership and default tag must equal a "
@@ -49,6 +49,27 @@ class P2(Component):
 
 
 PT = [P0, P1, P2]
+PENDING = {}
+
+
+def _creation_hook(cls, **kwargs):
+    """__init_subclass__ of every harness-made class: class-level operations issued while `cls` is being created
+    (a registering base class, a plugin pattern) must act on `cls` itself."""
+    act = PENDING.pop("act", None)
+    if act:
+        if act.get("attach") is not None:
+            comp = PT[act["attach"] % 3](cls, PENDING["model"])
+            cls.add_class_component(comp)
+            PENDING["made"] = comp
+        if act.get("tag") is not None:
+            cls.tag = act["tag"]
+        PENDING["fired"] = True
+
+
+def ns(d):
+    d = dict(d) if d is not None else {}
+    d["__init_subclass__"] = classmethod(_creation_hook)
+    return d
 BASES = {"Agent": Agent, "Environment": Environment, "SpaceWorld": SpaceWorld}
 
 
@@ -61,7 +82,9 @@ def generate(rng, tier):
             if cand:
                 j = rng.choice(cand)
                 classes.append({"name": f"K{i}", "base": j, "depth": classes[j]["depth"] + 1,
-                                "ns": rng.choice(["fresh", "fresh", "shared"])})
+                                "ns": rng.choice(["fresh", "fresh", "shared"]),
+                                "hook": {"attach": rng.choice([None, 0, 1, 2]), "tag": rng.choice([None, 3, 6])}
+                                if rng.random() < 0.15 else None})
                 continue
         classes.append({"name": f"K{i}", "base": rng.choice(roots), "depth": 1, "ns": rng.choice(["fresh", "fresh", "shared"])})
     n = len(classes) + 2      # + Agent, Environment themselves
@@ -89,7 +112,9 @@ def generate(rng, tier):
         elif r < 0.88:
             ops.append({"op": "new", "c": c, "tag": rng.choice([None, None, None, 0, 0, 3]), "comp": rng.choice([None, None, 0, 1, 2])})
         elif r < 0.93:
-            ops.append({"op": "subclass", "c": c, "how": rng.choice(["fresh", "shared", "clone", "clone"])})
+            ops.append({"op": "subclass", "c": c, "how": rng.choice(["fresh", "shared", "clone", "clone"]),
+                        "hook": {"attach": rng.choice([None, 0, 1, 2]), "tag": rng.choice([None, 3, 6])}
+                        if rng.random() < 0.3 else None})
         elif r < 0.95:
             ops.append({"op": "lifecycle", "c": c, "what": rng.choice(["complete", "step"])})
         else:
@@ -100,7 +125,10 @@ def generate(rng, tier):
 
 def execute(sc, ctx):
     m = Model(seed=20260927)
-    shared_ns = {"species": "generic"}      # ONE namespace dict reused by a class factory for several classes
+    hooked = []
+    shared_ns = ns({"species": "generic"})      # ONE namespace dict reused by a class factory for several classes
+    PENDING.clear()
+    PENDING["model"] = m
     built = []       # (class object, parent index or None, kind)
     for i, c in enumerate(sc["classes"]):
         base = c["base"]
@@ -108,11 +136,14 @@ def execute(sc, ctx):
             if base >= len(built):
                 base = "Agent"
             else:
-                built.append((type(c["name"], (built[base][0],), shared_ns if c.get("ns") == "shared" else {}), base,
+                PENDING["act"] = c.get("hook")
+                built.append((type(c["name"], (built[base][0],), shared_ns if c.get("ns") == "shared" else ns({})), base,
                               built[base][2]))
+                hooked.append((len(built) - 1, PENDING.pop("fired", False), PENDING.pop("made", None), c.get("hook")))
+                PENDING.pop("act", None)
                 continue
         root = BASES.get(base, Agent)
-        built.append((type(c["name"], (root,), shared_ns if c.get("ns") == "shared" else {}), None,
+        built.append((type(c["name"], (root,), shared_ns if c.get("ns") == "shared" else ns({})), None,
                       base if base in BASES else "Agent"))
     if any(c.get("ns") == "shared" for c in sc["classes"]):
         ctx.probe("shared_namespace_dict")
@@ -132,6 +163,13 @@ def execute(sc, ctx):
     # built-in relations: Environment derives from Agent; SpaceWorld from Environment (not in the list, but unaffected)
     comps = [dict() for _ in built]     # reference: type -> component
     tags = [0] * len(built)
+    for idx, fired, made, act in hooked:
+        if fired and act:
+            if act.get("attach") is not None and made is not None:
+                comps[idx][type(made)] = made
+            if act.get("tag") is not None:
+                tags[idx] = act["tag"]
+            ctx.probe("class_level_op_inside_creation_hook")
     shape = []
     counter = [0]
 
@@ -221,20 +259,30 @@ def execute(sc, ctx):
             if len(built) >= 14:
                 continue
             how = op.get("how", "fresh")
+            fired, made = False, None
             if how == "clone" and i not in (idx_agent, idx_env):
                 # a class rebuilt from another class's namespace (what slot-adding class decorators do): a new sibling
                 # that must start with no class components and the default tag NONE
-                ns = dict(cls.__dict__)
-                ns.pop("__dict__", None)
-                ns.pop("__weakref__", None)
-                sub = ctx.expect_ok("clone-class", type, f"L{len(built)}", cls.__bases__, ns)
+                clone_ns = dict(cls.__dict__)
+                clone_ns.pop("__dict__", None)
+                clone_ns.pop("__weakref__", None)
+                sub = ctx.expect_ok("clone-class", type, f"L{len(built)}", cls.__bases__, clone_ns)
                 built.append((sub, parent, rootkind))
                 ctx.probe("class_cloned_from_namespace")
             else:
-                sub = ctx.expect_ok("create-subclass", type, f"L{len(built)}", (cls,), shared_ns if how == "shared" else {})
+                PENDING["act"] = op.get("hook")
+                sub = ctx.expect_ok("create-subclass", type, f"L{len(built)}", (cls,), shared_ns if how == "shared" else ns({}))
                 built.append((sub, i, rootkind))
+                fired, made = PENDING.pop("fired", False), PENDING.pop("made", None)
+                PENDING.pop("act", None)
             comps.append({})
             tags.append(0)          # a new class starts with the default tag NONE and no class components
+            if how != "clone" and op.get("hook") and fired:
+                if op["hook"].get("attach") is not None and made is not None:
+                    comps[-1][type(made)] = made
+                if op["hook"].get("tag") is not None:
+                    tags[-1] = op["hook"]["tag"]
+                ctx.probe("class_level_op_inside_creation_hook")
             ctx.probe("class_created_mid_history")
             shape.append([pos, "subclass"])
             ctx.event("subclass", i)
